@@ -78,6 +78,8 @@ Budget(e, w, r) ==
 
 ResOK(e, r) == /\ (r.res = e.res \/ (r.res = "havoc" /\ e.res = "ok"))
                /\ r.cnt = e.cnt /\ r.vals = e.vals
+               \* WriteStriped must leave the caller's per-channel slices (elements of the caller's outer slice) alone
+               /\ (e.op = "WriteStriped" => e.lens = [c \in 1..Len(e.in) |-> Len(e.in[c])])
 Class(e, w, r) ==
     IF e.pf # 0 THEN "proj"
     ELSE IF ~ResOK(e, r) THEN "res"
